@@ -119,8 +119,10 @@ def run_case(case):
             hs, frames, tail = sim.frames(i, j)
             if int.from_bytes(hs[:2], 'little') != i:
                 return Outcome(False, f'handshake {i}->{j} announces pid {int.from_bytes(hs[:2], "little")}', labels=labels)
-            want = b''.join(keyof[S] for S in subsets if S[0] == i and j in S)
-            if bytes(hs[2:]) != want:
+            want = sorted(keyof[S] for S in subsets if S[0] == i and j in S)
+            body = bytes(hs[2:])
+            got = sorted(body[o:o + 16] for o in range(0, len(body), 16))   # any order of the keys is fine
+            if got != want:
                 return Outcome(False, f'handshake {i}->{j} carries {len(hs) - 2} key bytes that are not exactly the '
                                f'keys of the subsets led by {i} and containing {j}\ncase={case}', labels=labels)
     return Outcome(True, labels=labels, nontrivial=t >= 1 and m >= 3)
